@@ -20,6 +20,11 @@ Definition nth_res {A} (l : list A) (i : nat) : res A :=
 Definition py_and (a b : expr) : res expr :=
   if is_bool_expr_like b then Ok (b_and a b) else Err TypeError.
 
+(* constraints.then on two scalar operands: _make_bool_expr(Op.IMP, [x, y]);
+   NotImplemented (an operand that is not BoolExpr / bool) -> TypeError *)
+Definition py_then (a b : expr) : res expr :=
+  if is_bool_expr_like a && is_bool_expr_like b then Ok (b_imp a b) else Err TypeError.
+
 Fixpoint foldM {A B} (f : A -> B -> res A) (a : A) (l : list B) : res A :=
   match l with
   | [] => Ok a
@@ -57,7 +62,8 @@ Definition post_vertex (acyclic : bool) (ranks roots acts : list expr) (g : grap
   let* ai := nth_res acts i in
   let* ri := nth_res roots i in
   let* ct := count_true (less ++ [ri]) in
-  Ok (ensure st1 [b_imp ai ((if acyclic then i_eq else i_ge) ct (PyInt 1))]).
+  let* c := py_then ai ((if acyclic then i_eq else i_ge) ct (PyInt 1)) in
+  Ok (ensure st1 [c]).
 
 (* _active_vertices_connected with use_graph_primitive already resolved *)
 Definition post_avc (st : state) (acts : list expr) (g : graph) (acyclic prim : bool) : res state :=
